@@ -164,6 +164,7 @@ fn grid1(en: &Entry) -> Vec<String> {
         vec![
             "0", "0.1", "0.25", "0.5", "0.75", "1", "1.5", "2", "2.5", "3", "3.5", "4.75", "7", "10", "25", "100.5", "700", "1000000", "0.001", "0.000001", "(-0.1)", "(-0.25)", "(-0.5)", "(-0.75)", "(-1)", "(-1.5)", "(-2.5)", "(-3)", "(-3.5)",
             "(-7.5)", "(-20.25)", "(-150.5)", "150.5", "20", "21", "22", "23", "27", "28", "100", "170", "171", "12.75", "(-12.25)", "0.9", "(-0.9)", "1.05", "0.99", "(-0.99)", "2.4", "2.6", "(-2.4)", "(-2.6)", "4.5", "(-4.5)", "5", "6", "18",
+            "2.718281828", "3.14159265", "1.4422495703074083", "1.44222", "1.4446678610097661", "0.36787944117144233", "(1+1+1+1+1+1+1+1+1+1+1+1+1+1+1+1+1+1+1+1+1+1+1+1+1+1+1+1+1+1+1+1+1+1+1+1+1+1+1+1+1+1+1+1+1+1+1+1+1+1+1+1+1+1+1+1+1+1+1+1+1+1+1+1+1+1+1+1+1+1+1+1+1+1+1+1+1+1+1+1+1+1+1+1+1+1+1+1+1+1+1+1+1+1+1+1+1+1+1+1+1+1+1+1+1+1+1+1+1+1+1+1+1+1+1+1+1+1+1+1+1)",
             "0.3678", "(-0.3678)", "(-0.36)", "(-0.2)", "50", "1000", "0.0001", "0.0", "1.0", "2.0", "3.0", "4.0", "5.0", "10.0", "20.0", "21.0", "(-1.0)", "(-3.0)", "170.0",
         ]
     };
@@ -184,6 +185,10 @@ fn render(en: &Entry, args: &[String]) -> String {
 
 fn parse_arg(s: &str) -> f64 {
     let t = s.trim_start_matches('(').trim_end_matches(')');
+    if t.starts_with("1+1") {
+        // a flat sum of ones: its value is the number of terms
+        return t.split('+').count() as f64;
+    }
     t.parse::<f64>().unwrap_or(f64::NAN)
 }
 
@@ -207,6 +212,14 @@ fn grid_cases() -> &'static Vec<Case> {
                     }
                 }
                 _ => {
+                    if en.canon == "pow" && !matches!(en.ev, Ev::I64) {
+                        // (1 + 1/n)^n style probes: a base close to 1 with a huge (integral) exponent, and tiny results
+                        for b in ["1.0000001", "1.00000001", "0.9999999", "1.000001", "1.000000001", "2.0", "2", "0.5", "(-1.0000001)"] {
+                            for e in ["1000000", "10000000", "12345678", "100000000", "1000000000", "2000000000", "2147483647", "2147483648", "4000000000", "(-1074)", "(-1022)", "(-2000000000)", "1023", "1024"] {
+                                push(vec![b.to_string(), e.to_string()]);
+                            }
+                        }
+                    }
                     let g2: Vec<&String> = g.iter().step_by(2).collect();
                     for a in &g2 {
                         for b in &g2 {
@@ -394,6 +407,17 @@ impl Prop for C10Prop {
                 };
             }
             return Ok(());
+        }
+        if ev == Ev::Dec && matches!(en.canon, "pow" | "root") {
+            // the host evaluates on the double nearest to the decimal argument; its relative representation error
+            // (up to 1.1e-16) is amplified by the exponent, so beyond |y| = 1e5 the host is no 1e-9 oracle for a base
+            // that is not exactly representable in binary
+            let (base, expo) = if en.canon == "pow" { (args[0], args[1]) } else { (args[1], 1.0 / args[0]) };
+            let dyadic = (base * 1099511627776.0).fract() == 0.0;
+            if expo.abs() > 1e5 && !dyadic {
+                sc.exclude("decimal: host oracle not accurate enough (huge exponent on a non-dyadic base)");
+                return Ok(());
+            }
         }
         if ev == Ev::Dec && !exact_fn(en.canon, &args) && want.abs() < 1e-15 && want != 0.0 {
             sc.exclude("decimal: result too small to be represented to 1e-9 relative with 28 fractional digits");
